@@ -2,13 +2,16 @@
 from fractions import Fraction
 import math
 from core import num_canon, nums_agree
+import pipeline
 
 ID = "C01"
-LEAN_MODULES = ["KaVerif.Props.C01", "KaVerif.Props.C01Table"]
-GEN = ["Registry"]
+LEAN_MODULES = ["KaVerif.Props.C01", "KaVerif.Props.C01Table"] + pipeline.LEAN_MODULES
+GEN = ["Registry", "Units", "Tokens"]
 THEOREMS = ["KaVerif.C01_exact", "KaVerif.C01_divzero", "KaVerif.C01_never_float", "KaVerif.C01_literal",
             "KaVerif.C01_canonical", "KaVerif.C01_mod_sign",
-            "KaVerif.C01_dispatch_table"]
+            "KaVerif.C01_dispatch_table",
+            # the same statements lifted to the unified text->value pipeline (Props/Pipeline.lean)
+            "KaVerif.PIPE_arith", "KaVerif.PIPE_arith_exact", "KaVerif.PIPE_text_arith", "KaVerif.PIPE_text_arith_lexed"]
 RULE = ("random AExp trees (depth<=7 quick / <=11 thorough) over literals {0,1,2,3,small primes,10^k,2^64±1,10^30,"
         "200-digit ints, m e±k}, operators + - * / % ^ and unary + - abs floor ceil round int; rendered fully "
         "parenthesised and with minimal parentheses; pushed through the real tokenise→parse→eval and execute(); "
@@ -253,6 +256,9 @@ def check(ctx):
             return nums_agree(real_ans[3:], m[3:], 1e-9)
         return False
     ctx.correspond("aexp", cases, agree=agree, describe=lambda i: i["text"])
+    # the same programs as TEXT through the unified pipeline model (lexer -> parser -> evaluator -> display)
+    texts = [c[2]["text"] for c in cases[: ctx.n(1200, 12000)]] + [render_min(t) for t in trees[: ctx.n(600, 6000)]]
+    pipeline.run(ctx, [t for t in texts if len(t) < 4000], label="run-c01", min_modelled=0.0)
     # execute() level: a sample through the full pipeline incl. display (value must print, status 0)
     k = 0
     for t in trees[: ctx.n(300, 3000)]:
